@@ -45,7 +45,7 @@ class _Conflict(Exception):
 ELEMENTWISE = {
     "exp", "log", "sigmoid", "tanh", "softplus", "abs", "sqrt", "float", "double", "long", "to", "clone", "contiguous",
     "detach", "neg", "relu", "clamp", "type", "bool", "int", "square", "pow", "sign", "floor", "ceil", "round", "softmax",
-    "log_softmax", "where", "add", "sub", "mul", "div", "lt", "gt", "le", "ge", "eq",
+    "log_softmax", "where", "add", "sub", "mul", "div", "lt", "gt", "le", "ge", "eq", "as_tensor",
 }  # fmt: skip
 
 
@@ -53,6 +53,9 @@ class Layouts:
     def __init__(self, ctx_names):
         self.ctx_names = set(ctx_names)
         self.ctx_absent = False
+        self.cls = None  # the class whose sampler is evaluated (for its own tuple-returning helpers)
+        self.depth = 0
+        self.callee_layouts = {}  # `self.<attr>.sample` -> (layout without a context, layout with one)
         self.memo = {}
         self.conflicts = []
 
@@ -189,16 +192,64 @@ class Layouts:
             return ANY
         if not isinstance(e, ast.Call):
             return ANY
+        if isinstance(e.func, ast.Name) and e.func.id == "__store__" and len(e.args) == 3:
+            # x[:, j] = v keeps the leading axis of x and fills it row by row from v
+            idx = e.args[1]
+            first = idx.elts[0] if isinstance(idx, ast.Tuple) and idx.elts else idx
+            base = self.lead(e.args[0])
+            if isinstance(first, ast.Slice) and first.lower is None and first.upper is None and first.step is None and isinstance(idx, ast.Tuple) and len(idx.elts) > 1:
+                v = self.lead(e.args[2])
+                if v[0] in ("merged", "rows", "ns", "iid"):
+                    return self.combine(base, v, e)
+            return base
         if is_component(e):
             inner = e.args[0]
+            k = const_number(e.args[1]) if len(e.args) > 1 else None
+            hl = self._helper_component(inner, k) if isinstance(inner, ast.Call) and k is not None else None
+            if hl is not None:
+                return hl
             r = self._call_result(inner) if isinstance(inner, ast.Call) else ANY
             return r
         return self._call_result(e)
+
+    def _helper_component(self, call, k):
+        """Layout of component k of `self._helper(..)` when the helper is a method of the class
+        under evaluation that returns a tuple: evaluated on the helper's own paths, its parameters
+        that receive a per-row argument standing for the context rows"""
+        cls = self.cls
+        if cls is None or not (isinstance(call.func, ast.Attribute) and isinstance(call.func.value, ast.Name) and call.func.value.id == "self"):
+            return None
+        fi = cls.lookup_method(call.func.attr)
+        if fi is None or self.depth > 2:
+            return None
+        params = [a for a, _ in fi.params() if a != "self"]
+        rows = set()
+        for pn, a in list(zip(params, call.args)) + [(kw.arg, kw.value) for kw in call.keywords if kw.arg]:
+            if self.lead(a) == ROWS:
+                rows.add(pn)
+        got = set()
+        for path in paths_of(fi.node):
+            if path.kind != "return":
+                continue
+            if not (isinstance(path.ret, ast.Tuple) and k < len(path.ret.elts)):
+                return None
+            sub = Layouts(rows)
+            sub.cls, sub.depth, sub.ctx_absent = cls, self.depth + 1, self.ctx_absent
+            got.add(sub.lead(path.ret.elts[k]))
+            self.conflicts.extend(sub.conflicts)
+        r = next(iter(got)) if len(got) == 1 else None
+        return None if r == ANY else r
 
     def _call_result(self, c):
         last, ops, is_method = self._args(c)
         chain = attr_chain(c.func) or ""
         # samplers of sub-objects: the Distribution contract (SAMPLE-SHAPE)
+        if chain in self.callee_layouts:
+            # a sampler of a sub-module that is not a Distribution (no [rows, n, ...] contract):
+            # the layout its own code returns, with / without a context
+            cx = self._kw(c, "context", 1 if not is_method else 2, ops)
+            absent = cx is None or (isinstance(cx, ast.Constant) and cx.value is None) or self.ctx_absent
+            return self.callee_layouts[chain][0 if absent else 1]
         if chain.endswith(".sample") or chain.endswith("._sample") or chain.endswith(".sample_and_log_prob"):
             cx = self._kw(c, "context", 1 if not is_method else 2, ops)
             if cx is None or (isinstance(cx, ast.Constant) and cx.value is None) or self.ctx_absent:
@@ -299,6 +350,21 @@ class Layouts:
             if isinstance(shp, (ast.List, ast.Tuple)) and len(shp.elts) == 2:
                 return self._split(lx, self.tag(shp.elts[0]), self.tag(shp.elts[1]), c)
             return ANY
+        if is_method and ((last in ("reshape", "view") and len(ops) == 2 and const_number(ops[1]) == -1) or (last in ("flatten", "squeeze") and len(ops) == 1) or (last == "squeeze" and len(ops) == 2 and const_number(ops[1]) not in (None, 0))):
+            # flattening keeps the leading axis outermost: its order survives
+            lx = self.lead(ops[0])
+            return lx if lx[0] in ("merged", "rows", "ns", "iid") else ANY
+        if last == "gather" and is_method and len(ops) >= 3 and (const_number(ops[1]) or 0) >= 1:
+            # picks along a later axis: the leading axis is that of the source (and of the index)
+            return self.combine(self.lead(ops[0]), self.lead(ops[2]), c)
+        if last in ("reshape", "view") and is_method and len(ops) >= 2 and isinstance(ops[1], ast.Starred):
+            v = ops[1].value
+            if isinstance(v, ast.Attribute) and v.attr == "shape":
+                # x.reshape(*y.shape, k, ..): the leading axis of y (one axis) is kept in front
+                lx, ly = self.lead(ops[0]), self.lead(v.value)
+                if lx[0] in ("merged", "rows", "ns", "iid") and ly[0] in ("any", lx[0]):
+                    return lx
+            return ANY
         if last in ("reshape", "view"):
             x = ops[0] if ops else None
             sizes = ops[1:]
@@ -319,6 +385,15 @@ class Layouts:
             if lx[0] in ("pair", "iidpair") and sizes and self.tag(sizes[0]) in ("CN", "?"):
                 return ("merged", lx[1], lx[2]) if lx[0] == "pair" else IID
             return ANY
+        if last == "sum_except_batch":
+            # reduces the trailing axes only: the leading (batch) axes keep their layout
+            x = ops[0] if ops else None
+            nbd = self._kw(c, "num_batch_dims", 1, ops)
+            k = 1 if nbd is None else const_number(nbd)
+            lx = self.lead(x) if x is not None else ANY
+            if lx[0] in ("pair", "iidpair"):
+                return lx if k == 2 else ANY
+            return lx if k == 1 else ANY
         if last in ELEMENTWISE or (last in ("_share_across_batch",)):
             out = ANY
             for a in ops:
@@ -358,9 +433,88 @@ TARGETS = [
 ]
 
 
+NON_DISTRIBUTION_SAMPLERS = [("MixtureOfGaussiansMADE", "nflows.nn.nde.made", "sample")]
+
+
+def _all_targets(p, targets):
+    """The anchors plus every sampling method a class of the distributions / flows packages
+    defines itself (an override added later is a sampler like the others)"""
+    out = list(targets)
+    have = set(out)
+    for mname in sorted(p.modules):
+        if not (mname.startswith("nflows.distributions") or mname.startswith("nflows.flows")):
+            continue
+        m = p.modules[mname]
+        for cname in sorted(m.classes):
+            cls = m.classes[cname]
+            for meth in ("_sample", "sample_and_log_prob"):
+                fi = cls.methods.get(meth) if hasattr(cls, "methods") else None
+                if fi is None or (cname, mname, meth) in have:
+                    continue
+                if any(isinstance(st, ast.Raise) for st in fi.node.body):
+                    continue  # abstract
+                out.append((cname, mname, meth))
+                have.add((cname, mname, meth))
+    return out
+
+
+def _returned_layouts(p, cname, mod, mname):
+    """(layout without a context, layout with one) of what `cname.mname` returns, when every
+    returning path of a kind agrees; ANY otherwise"""
+    try:
+        cls = p.find_class(cname, mod)
+    except Exception:
+        return None
+    fi = cls.lookup_method(mname) if cls is not None else None
+    if fi is None:
+        return None
+    got = {True: set(), False: set()}
+    for path in paths_of(fi.node):
+        if path.kind != "return":
+            continue
+        absent = _ctx_absent(path)
+        L = Layouts(set() if absent else {"context"})
+        L.ctx_absent = absent
+        r = path.ret.elts[0] if isinstance(path.ret, ast.Tuple) and path.ret.elts else path.ret
+        got[absent].add(L.lead(r))
+    pick = lambda s: next(iter(s)) if len(s) == 1 else ANY
+    return (pick(got[True]), pick(got[False]))
+
+
+def _callee_layouts(p, cls):
+    """`self.<attr>.sample` -> returned layouts, for the attributes the constructor of `cls` binds
+    to a non-Distribution sampler class"""
+    out = {}
+    init = cls.lookup_method("__init__") if cls is not None else None
+    if init is None:
+        return out
+    for st in ast.walk(init.node):
+        if isinstance(st, ast.Assign) and len(st.targets) == 1 and isinstance(st.value, ast.Call):
+            t = st.targets[0]
+            if isinstance(t, ast.Attribute) and isinstance(t.value, ast.Name) and t.value.id == "self":
+                callee = norm_text(st.value.func).split(".")[-1]
+                for cname, mod, mname in NON_DISTRIBUTION_SAMPLERS:
+                    if callee == cname:
+                        lay = _returned_layouts(p, cname, mod, mname)
+                        if lay is not None:
+                            out["self.%s.%s" % (t.attr, mname)] = lay
+    return out
+
+
+def _ctx_absent(path):
+    for et, raw, pol in path.conds:
+        if isinstance(et, ast.Compare) and len(et.ops) == 1 and isinstance(et.comparators[0], ast.Constant) and et.comparators[0].value is None and "context" in norm_text(et.left):
+            is_none = isinstance(et.ops[0], ast.Is) == bool(pol) if isinstance(et.ops[0], (ast.Is, ast.IsNot)) else None
+            if is_none:
+                return True
+    return False
+
+
 def findings_layout(p, targets=TARGETS, res=None):
     out = []
     n = 0
+    if targets is TARGETS:
+        targets = _all_targets(p, targets)
     for cname, mod, mname in targets:
         try:
             cls = p.find_class(cname, mod)
@@ -371,6 +525,7 @@ def findings_layout(p, targets=TARGETS, res=None):
             continue
         n += 1
         ctx_names = {a for a, _ in fi.params() if a == "context"}
+        callee_lay = _callee_layouts(p, cls)
         seen = set()
         for path in paths_of(fi.node):
             if path.kind != "return":
@@ -384,6 +539,8 @@ def findings_layout(p, targets=TARGETS, res=None):
                         ctx_absent = True
             L = Layouts(set() if ctx_absent else ctx_names)
             L.ctx_absent = ctx_absent
+            L.callee_layouts = callee_lay
+            L.cls = cls
             rets = path.ret.elts if isinstance(path.ret, ast.Tuple) else [path.ret]
             final = [L.lead(r) for r in rets]
             # the sampler's own result: [rows, num_samples, ...]
